@@ -28,8 +28,8 @@ Definition c_dec_res (b : cblob) := match b with BRes x => Some x | _ => None en
 
 Definition c_state := state cblob.
 Definition c_step (fix_label : bool) : c_state -> op -> c_state * list (ev cblob) :=
-  step cblob BFab c_dec_fab BBasic BNets c_dec_nets BLabels BBinds BRes c_dec_res
-       c_dec_basic c_dec_labels c_dec_binds fix_label.
+  step cblob BFab c_dec_fab BBasic c_dec_basic BNets c_dec_nets BLabels c_dec_labels
+       BBinds c_dec_binds BRes c_dec_res fix_label.
 Definition c_startup : kv cblob -> option (ram * list (kvop cblob)) :=
   startup cblob c_dec_fab c_dec_basic c_dec_nets c_dec_labels c_dec_binds BRes c_dec_res.
 Definition c_replay : kv cblob -> list (kvop cblob) -> kv cblob := replay cblob.
@@ -147,7 +147,9 @@ Fixpoint check_frozen (i : N) (prev_fs : option N) (prev_end : N) (ops : list op
        | Some a, Some b =>
            if (a =? b) && negb (a =? 0) then
              match find_cut cuts prev_end, find_cut cuts (o_end o) with
-             | Some c1, Some c2 => if cell (c_cells c1) a =? cell (c_cells c2) a then [] else [(V_FLUSHED, i)]
+             | Some c1, Some c2 =>
+                 if (cell (c_cells c1) a =? cell (c_cells c2) a) || (cell (c_cells c2) a =? 0)
+                 then [] else [(V_FLUSHED, i)]
              | _, _ => []
              end
            else []
